@@ -30,6 +30,6 @@ def check(run, tier, seed, replay=None, only=None):
         stages.append(("meas-%d" % s, ["--mode", "meas", "--budget", 25 if quick else 60, "--maxlen", 131072, "--seed", seed * 100 + 40 + s]))
     n = simple.run_check(run, tier, seed, replay, "rand_drv", "Trace_Random.tla",
                          [("MC_Random.tla", "MC_Random.cfg", "MC_Random (per-thread determinism under every interleaving)")],
-                         stages, restart=lambda r: False, chunks=1)
+                         stages, restart=lambda r: r.get("e") in ("Seed", "Thread", "Randi", "Range", "Resid"), chunks=1)
     run.clause("replay after rng(seed) is bit-identical whatever preceded the seed and in any thread; randi bounds", "T1", n or 0)
     run.clause("awgn noise power within 6 standard errors; thd 0.1 dB; harmonic frequencies 0.1 bin; sinad 1.5 dB; scale invariance", "T3", n or 0)
